@@ -1,0 +1,19 @@
+//go:build verif
+
+// Contracts for govc (see /verif/DESIGN.md). Comment-only file.
+
+package builtin
+
+//@ property C42
+// Transaction(block): the deferred function decides how the transaction ends. Panics are control flow
+// here: Thread.Call (the block) may return or panic with any value; core.BlockReturn is the value used
+// for "return from the enclosing function".
+//@ func Transaction(th, args) (r)
+//@   nosafety
+//@   requires th != nil && len(args) >= 3
+//@   modifies all, gTran, gCompletes, gRollbacks
+//@   ensures! block_form_ends: old(args[2]) != core.False ==> gTran.status != 0 && fresh(gTran)
+//@   ensures! completed_not_rolled_back: gRollbacks == old(gRollbacks)
+//@   ensures! exception_propagates: !recovered()
+//@   on_panic thrown_rolls_back: fresh(gTran) && panicvalue() != core.BlockReturn ==> gTran.status != 0 && gCompletes == old(gCompletes)
+//@   on_panic block_return_completes: fresh(gTran) && panicvalue() == core.BlockReturn ==> gTran.status != 0 && gRollbacks == old(gRollbacks)
